@@ -787,7 +787,7 @@ class C17(PropertyCheck):
     extra_modules = ["PynguinModel.Model.Stopping", "PynguinModel.Generated.C17Stopping"]
     driver = "Driver/C17.lean"
     n_quick = 70
-    n_thorough = 2000
+    n_thorough = 1200   # 2000 took 25 min under load
     n_search = 1500
     rule = ("in-process runs of the 7 non-LLM algorithms (built by the real factory) on 4 tiny modules with "
             "iteration budgets 1..10, execution budgets 1..200, statement budgets 1..400 in all on/off "
